@@ -384,7 +384,21 @@ fn directed_prelude(ty: &str, rng: &mut Rng) -> Option<(u64, Vec<Vec<u64>>)> {
     let m1 = (m0 + 1 + rng.below(2)) % 3;
     let nodup = 1; // first DELIVER arg: 0 = re-deliver a known op, otherwise an unknown one
     match ty {
-        "orswot" => Some(match rng.below(6) {
+        "orswot" => Some(match rng.below(7) {
+            // a snapshot taken before a remove picks up a concurrent add and is merged back;
+            // then the remove of that concurrent add arrives: nothing may keep the member alive
+            6 => (1, vec![
+                vec![K_EDIT, ra, m0, 0],                 // R: add m0                   (op 0)
+                vec![K_SPAWN, 0, ra],                    // Q := snapshot of R           (replica 3)
+                vec![K_EDIT, ra, m0, 4],                 // R: rm m0                     (op 1)
+                vec![K_EDIT, rb, m0, 0],                 // P: add m0 concurrently      (op 2)
+                vec![K_DELIVER, 3, nodup, 1],            // Q gets P's add
+                vec![K_MERGE, ra, 3],                    // R <- Q
+                vec![K_EDIT, rb, m0, 4],                 // P: rm m0 (its own add)      (op 3)
+                vec![K_DELIVER, ra, nodup, 0],           // R gets that remove
+                vec![K_MERGE, rc, ra],
+                vec![K_MERGE, rc, rb],
+            ]),
             // two removers (different actors) remove different members under the SAME context;
             // each remove reaches a different fresh replica before the add; the merge laws are
             // probed on those two states, then they merge and the add arrives
